@@ -369,6 +369,19 @@ impl Matcher {
                                     basis_before.round_dp(2)
                                 )));
                             }
+                            if !ledger.can_absorb_cost_reduction(net_value) {
+                                return Err(CgtError::InvalidTransaction(format!(
+                                    "CAPRETURN {} on {}: capital distribution £{} cannot be \
+                                     absorbed: apportioned by shares held, it exceeds the \
+                                     allowable cost of one of the acquisitions. TCGA92/S122(2) \
+                                     does not apply when distribution exceeds expenditure \
+                                     (CG57847). Part-disposal under S122(1) or election under \
+                                     S122(4) is required.",
+                                    tx.ticker,
+                                    tx.date,
+                                    net_value.round_dp(2)
+                                )));
+                            }
                             #[cfg(feature = "verif")]
                             let before: Vec<Decimal> =
                                 ledger.lots().iter().map(|l| l.cost_offset).collect();
